@@ -394,7 +394,7 @@ class TraceManager:
 
     def counts(self) -> ArrayLike:
         """summarize outcomes from entire set of traces"""
-        out = np.sum((t.outcome() for t in self.traces))
+        out = sum((t.outcome() for t in self.traces))
         return out
 
     def event_list(self) -> List:
@@ -413,7 +413,7 @@ class TraceManager:
         print(f"# of trajectories: {len(self.traces)}", file=file)
 
         nhops = np.array([len(t.hops) for t in self.traces])
-        hop_stats = [np.sum((t.weight for t in self.traces if len(t.hops) == i)) / norm for i in range(max(nhops) + 1)]
+        hop_stats = [sum((t.weight for t in self.traces if len(t.hops) == i)) / norm for i in range(max(nhops) + 1)]
         print("{:5s} {:16s}".format("nhops", "percentage"), file=file)
         for i, w in enumerate(hop_stats):
             print(f"{i:5d} {w:16.12f}", file=file)
